@@ -258,6 +258,7 @@ func (c12) Run(c *engine.Case) *engine.Result {
 	res := &engine.Result{}
 	outcomes := map[string]int{}
 	one := func(src string, env interface{}) {
+		engine.Heartbeat()
 		res.States++
 		oc := judgeAPI(res, src, env)
 		outcomes[oc]++
